@@ -238,7 +238,8 @@ pub struct Known {
 }
 
 pub fn load_known() -> Vec<Known> {
-    let p = verif_dir().join("known_findings.json");
+    // the committed file next to the vcheck script (VERIF_KNOWN), else the one in the output directory
+    let p = std::env::var("VERIF_KNOWN").map(std::path::PathBuf::from).unwrap_or_else(|_| verif_dir().join("known_findings.json"));
     let Ok(s) = std::fs::read_to_string(&p) else { return vec![] };
     let v: Value = serde_json::from_str(&s).expect("known_findings.json must parse");
     v["findings"]
